@@ -88,7 +88,7 @@ Definition print_event (e : event) : bytes :=
 
 Definition print_depcall (d : depcall) : bytes :=
   match d with
-  | DTransfer f dn a ok => B "Transfer" ++ kv_hex "from" f ++ kv_hex "denom" dn ++ kv_Z "amt" a ++ kv_bool "ok" ok
+  | DTransfer f dn a ok => B "Transfer" ++ kv_hex "from" f ++ kv_hex "to" (B "cctp") ++ kv_hex "denom" dn ++ kv_Z "amt" a ++ kv_bool "ok" ok
   | DBurn f dn a ok => B "Burn" ++ kv_hex "from" f ++ kv_hex "denom" dn ++ kv_Z "amt" a ++ kv_bool "ok" ok
   | DMint f t dn a ok => B "Mint" ++ kv_hex "from" f ++ kv_hex "to" t ++ kv_hex "denom" dn ++ kv_Z "amt" a ++ kv_bool "ok" ok
   end.
